@@ -3,6 +3,7 @@
 mod astx;
 mod bcmc;
 mod common;
+mod compose;
 mod gcprog;
 mod gen;
 mod heapmc;
